@@ -555,6 +555,23 @@ def Exp.cleanFields : List (String × Exp) → Bool
   | (_, e) :: es => Exp.clean e && Exp.cleanFields es
 end
 
+mutual
+/-- a reference-free JSON literal: what the compiler accepts where an untyped `map` is expected
+(`BuiltinType.IsValidExpression`, case `*MapExp`: "literal cannot be assigned to untyped map:
+contains reference") -/
+def Exp.isJson : Exp → Bool
+  | .lit _ => true
+  | .arr xs => Exp.isJsonList xs
+  | .map kvs => Exp.isJsonFields kvs
+  | _ => false
+def Exp.isJsonList : List Exp → Bool
+  | [] => true
+  | e :: es => Exp.isJson e && Exp.isJsonList es
+def Exp.isJsonFields : List (String × Exp) → Bool
+  | [] => true
+  | (_, e) :: es => Exp.isJson e && Exp.isJsonFields es
+end
+
 /-! ## auxiliary notions used to state the meta-theorems (Props/C01.lean) -/
 
 /-- the oracle induced by a history: the outputs recorded for an instance -/
